@@ -326,6 +326,41 @@ def validate_batch(ctx, idx, lines, owners):
     return problems
 
 
+def replay(ctx, binary):
+    """bin/check C07 --replay replay/C07-xxxx.json : re-execute one recorded case and judge it again."""
+    with open(ctx.replay_in) as f:
+        rep = json.load(f)
+    case = rep["case"]["case"]
+    op = rep["case"].get("operation") or dict(zip(("id", "name", "vars", "query"), next(o for o in OPS if o[0] == case["op"])))
+    ops_path = ctx.path("ops.json")
+    with open(ops_path, "w") as f:
+        json.dump([op], f)
+    pp = ctx.path("plans.ndjson")
+    ctx.run_bin(binary, ["-mode", "plan", "-in", ops_path, "-out", pp], timeout=300)
+    pi = PlanInfo(lib.read_ndjson(pp)[0])
+    case = dict(case, id="replay")
+    res = run_driver(ctx, binary, ops_path, [case], "replay")[0]
+    res["case"] = case
+    print("response:", res["response"])
+    if res["panic"] or not res["arrived"]:
+        ctx.violation(rep.get("key", "replay"), "panic / no response on replay: %s" % res["panic"][:300], {"case": case, "result": res})
+        return
+    tr = trace_of(pi, res)
+    for cid, verdict, ev, off in validate_batch(ctx, 0, tr, ["replay"] * len(tr)):
+        print("  %s at event #%d %s" % (verdict, off, json.dumps({k: v for k, v in ev.items() if k not in ("a", "x")})))
+        fid = ev.get("f", 0) - 1
+        if verdict in PER_FETCH and 0 <= fid < pi.n:
+            key = "%s:%s/%s" % (verdict, pi.fetches[fid]["kind"], case["faults"].get(str(fid), "ok"))
+        else:
+            key = "%s:%s" % (verdict, pi.sig(case["faults"], res))
+        ctx.violation(key, "replay: %s; response %s" % (verdict, res["response"][:400]), {"case": case, "operation": op, "response": res["response"],
+                                                                                         "exchanges": res["exchanges"], "events": res["events"]})
+    ctx.coverage.update({"traces_validated_against_impl": 1, "evaluations": 1, "distinct_nontrivial": 1, "rule": "replay of one recorded case", "exhaustive": False})
+
+
+PER_FETCH = ("ErrorReportedPerFetch", "NoFabrication", "SameOperation", "Independent", "SkipJustified", "SkipHonoured", "DepsSettled")
+
+
 def run(ctx):
     rng = random.Random(ctx.seed)
     # findings of this property that are not merged into known-findings.json yet (findings.d/C07.json)
@@ -338,6 +373,8 @@ def run(ctx):
                     ctx.known().append(k)
     quick = ctx.quick()
     binary = ctx.build("faults")
+    if ctx.replay_in:
+        return replay(ctx, binary)
     # ---- 1. model checking ------------------------------------------------------------------------
     ctx.tlc_must_pass(["resolve"], "MC_FetchExec", "MC_FetchExec_3.cfg", workers=8, timeout=900, tag="mc-3")
     if not quick:
@@ -451,7 +488,7 @@ def run(ctx):
         pi = plans[r["op"]]
         bad.add(cid)
         fid = ev.get("f", 0) - 1
-        if verdict in ("ErrorReportedPerFetch", "NoFabrication", "SameOperation", "Independent", "SkipJustified", "SkipHonoured", "DepsSettled") and 0 <= fid < pi.n:
+        if verdict in PER_FETCH and 0 <= fid < pi.n:
             # these speak about one fetch: the one whose event made the invariant false
             key = "%s:%s/%s" % (verdict, pi.fetches[fid]["kind"], r["case"]["faults"].get(str(fid), "ok"))
         else:
